@@ -31,6 +31,10 @@ func convertReflectValueToType(rv reflect.Value, rt reflect.Type) (reflect.Value
 		return rv, nil
 	}
 	if rv.Type().ConvertibleTo(rt) {
+		if rv.Kind() == reflect.Slice && rt.Kind() == reflect.Array && rv.Len() < rt.Len() {
+			// Go converts a slice to an array only when the slice is long enough (Convert panics otherwise)
+			return rv, errInvalidTypeConversion
+		}
 		// if reflect can covert, do that conversion and return
 		return rv.Convert(rt), nil
 	}
@@ -115,13 +119,17 @@ func convertSliceOrArray(rv reflect.Value, rt reflect.Type) (reflect.Value, erro
 		// make slice
 		value = reflect.MakeSlice(rt, rv.Len(), rv.Len())
 	} else {
-		// make array
+		// make array: as Go's conversion of a slice to an array, the source must be long enough
+		// and the array takes its first elements
+		if rv.Len() < rt.Len() {
+			return rv, errInvalidTypeConversion
+		}
 		value = reflect.New(rt).Elem()
 	}
 
 	var err error
 	var v reflect.Value
-	for i := 0; i < rv.Len(); i++ {
+	for i := 0; i < value.Len(); i++ {
 		v, err = convertReflectValueToType(rv.Index(i), rtElemType)
 		if err != nil {
 			return rv, err
